@@ -138,6 +138,14 @@ pub struct World {
     pub getrandom_calls: usize,
     pub hard_stop: Option<std::sync::mpsc::Sender<()>>,
     pub engine: Vec<EngineOut>,
+    /// virtual clock (nanoseconds since the world started): every seam event costs `event_cost_ns`, an EOF
+    /// poll additionally `poll_cost_ns` (a slow or descheduled follower / a pausing writer), sleeps advance it
+    /// by their duration and return at once
+    pub clock_ns: u64,
+    pub event_cost_ns: u64,
+    pub poll_cost_ns: u64,
+    pub sleeps: u64,
+    pub clock_reads: u64,
 }
 
 impl World {
@@ -168,6 +176,11 @@ impl World {
             getrandom_calls: 0,
             hard_stop: None,
             engine: Vec::new(),
+            clock_ns: 0,
+            event_cost_ns: 10_000,
+            poll_cost_ns: 0,
+            sleeps: 0,
+            clock_reads: 0,
         }
     }
 
@@ -205,6 +218,7 @@ impl World {
             Step { land: usize::MAX, fault: Fault::None }
         };
         self.step_idx += 1;
+        self.clock_ns += self.event_cost_ns;
         let mut landed = 0usize;
         let mut n = step.land;
         while n > 0 {
@@ -290,6 +304,7 @@ impl World {
         }
         let avail = len.saturating_sub(off);
         if avail == 0 || count == 0 {
+            self.clock_ns += self.poll_cost_ns;
             if count != 0 && self.pending.is_empty() {
                 if let Some(limit) = self.end_after_idle {
                     if self.idle >= limit {
@@ -619,4 +634,55 @@ pub unsafe extern "C" fn writev(fd: libc::c_int, iov: *const libc::iovec, iovcnt
         }
     }
     libc::syscall(libc::SYS_writev, fd, iov, iovcnt) as libc::ssize_t
+}
+
+/// Base of the virtual wall clock (2025-01-01T00:00:00Z) so that REALTIME readings look sane.
+const VIRTUAL_EPOCH_S: i64 = 1_735_689_600;
+
+#[no_mangle]
+pub unsafe extern "C" fn clock_gettime(clock: libc::clockid_t, ts: *mut libc::timespec) -> libc::c_int {
+    if !ts.is_null() {
+        if let Some(w) = enter() {
+            w.clock_reads += 1;
+            let ns = w.clock_ns;
+            exit();
+            let base = if clock == libc::CLOCK_REALTIME || clock == libc::CLOCK_REALTIME_COARSE { VIRTUAL_EPOCH_S } else { 1_000 };
+            (*ts).tv_sec = base + (ns / 1_000_000_000) as i64;
+            (*ts).tv_nsec = (ns % 1_000_000_000) as i64;
+            return 0;
+        }
+    }
+    libc::syscall(libc::SYS_clock_gettime, clock, ts) as libc::c_int
+}
+
+unsafe fn virtual_sleep(req: *const libc::timespec) -> bool {
+    if req.is_null() {
+        return false;
+    }
+    if let Some(w) = enter() {
+        let d = (*req).tv_sec.max(0) as u64 * 1_000_000_000 + (*req).tv_nsec.max(0) as u64;
+        w.clock_ns += d;
+        w.sleeps += 1;
+        exit();
+        return true;
+    }
+    false
+}
+
+#[no_mangle]
+pub unsafe extern "C" fn nanosleep(req: *const libc::timespec, rem: *mut libc::timespec) -> libc::c_int {
+    if virtual_sleep(req) {
+        return 0;
+    }
+    libc::syscall(libc::SYS_nanosleep, req, rem) as libc::c_int
+}
+
+#[no_mangle]
+pub unsafe extern "C" fn clock_nanosleep(clock: libc::clockid_t, flags: libc::c_int, req: *const libc::timespec, rem: *mut libc::timespec) -> libc::c_int {
+    if flags == 0 && virtual_sleep(req) {
+        return 0;
+    }
+    // clock_nanosleep returns the error number instead of setting errno
+    let r = libc::syscall(libc::SYS_clock_nanosleep, clock, flags, req, rem);
+    if r < 0 { *libc::__errno_location() } else { 0 }
 }
